@@ -310,6 +310,15 @@ func (g *genCtx) zeroSizeFamily(from *FuncInfo, fam string) bool {
 // zeroSizeJSON: the family's JSON writer emits constants only (no key, no value event).
 func (g *genCtx) zeroSizeJSON(from *FuncInfo, fam string) bool {
 	roles := g.byFam[from.Pkg.PkgPath+"."+fam]
+	if roles == nil {
+		// per-namespace layout: the field's type lives in another package
+		for _, key := range sortedKeys(g.byFam) {
+			if shortFam(key) == fam {
+				roles = g.byFam[key]
+				break
+			}
+		}
+	}
 	if roles == nil || roles["WriteJSONOpt"] == nil {
 		return false
 	}
@@ -320,9 +329,9 @@ func (g *genCtx) zeroSizeJSON(from *FuncInfo, fam string) bool {
 func (g *genCtx) zeroSizeTL1(from *FuncInfo, fam string) bool {
 	roles := g.byFam[from.Pkg.PkgPath+"."+fam]
 	if roles == nil {
-		for key, rs := range g.byFam {
+		for _, key := range sortedKeys(g.byFam) {
 			if shortFam(key) == fam {
-				roles = rs
+				roles = g.byFam[key]
 				break
 			}
 		}
